@@ -692,6 +692,59 @@ theorem retry_RI (f : List ℝ → ℝ) {params B : PList ℝ} (hc : Ctx params 
       obtain ⟨h1, h2, h3, h4, h5, h6⟩ := ih _ _ _ _ hri' hrp' hexc
       exact ⟨h1, h2, h3, by rw [h4, hk], by rw [h5, he1], by rw [h6, he2]⟩
 
+
+/-! ### `createSubList` -/
+theorem subNamesGo_spec (l : PList ℝ) : ∀ (ns : List Name) (acc p : PList ℝ), subNamesGo l acc ns = .ok p →
+    names p = names acc ++ ns ∧ (∀ q ∈ p, q ∈ acc ∨ q ∈ l) ∧ ((names acc).Nodup → (names p).Nodup) := by
+  intro ns
+  induction ns with
+  | nil =>
+    intro acc p h
+    simp only [subNamesGo] at h
+    injection h with h; subst h
+    exact ⟨by simp, fun q hq => Or.inl hq, id⟩
+  | cons n ns ih =>
+    intro acc p h
+    unfold subNamesGo at h
+    cases hf : find? l n with
+    | none => rw [hf] at h; cases h
+    | some q =>
+      rw [hf] at h
+      simp only [] at h
+      split at h
+      · cases h
+      · rename_i hhas
+        obtain ⟨h1, h2, h3⟩ := ih (acc ++ [q]) p h
+        have hq := find?_some hf
+        refine ⟨?_, ?_, ?_⟩
+        · rw [h1]; simp [names, hq.2]
+        · intro x hx
+          rcases h2 x hx with hx | hx
+          · rcases List.mem_append.mp hx with hx | hx
+            · exact Or.inl hx
+            · simp at hx; subst hx; exact Or.inr hq.1
+          · exact Or.inr hx
+        · intro hnd
+          apply h3
+          have hn : n ∉ names acc := by
+            intro hm; apply hhas; exact (has_iff acc n).mpr hm
+          simp only [names, List.map_append, List.map_cons, List.map_nil]
+          rw [List.nodup_append]
+          refine ⟨hnd, by simp, ?_⟩
+          intro a ha b hb
+          simp at hb; subst hb
+          rw [hq.2]
+          intro e; subst e; exact hn ha
+
+theorem subNames_spec (l : PList ℝ) (ns : List Name) (p : PList ℝ) (h : subNames l ns = .ok p) :
+    names p = ns ∧ (∀ q ∈ p, q ∈ l) ∧ (names p).Nodup := by
+  obtain ⟨h1, h2, h3⟩ := subNamesGo_spec l ns [] p h
+  refine ⟨by simpa [names] using h1, ?_, h3 (by simp [names])⟩
+  intro q hq
+  rcases h2 q hq with h | h
+  · cases h
+  · exact h
+
 end RealLists
 
 end Bpp.NumDeriv
